@@ -23,6 +23,23 @@ namespace Autd3.Reject
 open Autd3.Gen.Drv Autd3.Gen Autd3.PbCodec
 
 -- ------------------------------------------------------------------------------------------------
+-- enable masks
+
+/-- With at least one enabled device the enable mask does not matter: every theorem below about `send` holds
+verbatim for `sendMasked _ true` (pack-time validation runs on every enabled device; they all hold the same
+operations). -/
+theorem sendMasked_enabled (numTr : Nat) (d : Dg) : sendMasked numTr true d = send numTr d := by
+  simp [sendMasked]
+
+/-- Generator-time defects (STM sizes, foci count, STM period / sampling configuration) are reported with *no*
+enabled device too: whenever the generator fails, nothing reaches the link, for either mask value. The pack-time
+classes are **not** covered with no enabled device (`send` then answers `(ok, 1)`; recorded by the `reject`
+stream as the observation `all-disabled`). -/
+theorem sendMasked_generator_error (numTr : Nat) (en : Bool) (d : Dg) (e : ErrKind) (h : d.generate = .err e) :
+    sendMasked numTr en d = (.err e, 0) := by
+  cases en <;> simp [sendMasked, send, h]
+
+-- ------------------------------------------------------------------------------------------------
 -- sizes
 
 /-- **Modulation size** (0, 1, max+1, max+k — every length outside 2..=65536): refused with
@@ -383,6 +400,10 @@ example : send 249 (.single (.silencerTime 30000 25000)) = (.err .invalidSilence
 example : send 249 (.single (.silencerTime 25000 (65536 * 25000))) = (.err .silencerCompletionTimeOutOfRange, 0) :=
   rejected_silencer_time 249 _ _ _ (Or.inr ⟨by decide, by decide⟩)
 example : completionTimeDefect (40 * 25000) = none := by decide
+/-- no enabled device: the 65537-sample modulation is answered `(ok, 1)`, the empty GainSTM is still refused -/
+example : sendMasked 249 false (.single (.modulation 65537 (.division 10))) = (.ok (), 1) := by rfl
+example : sendMasked 249 false (.single (.gainStm 0 0 (.sampling (.division 100)))) = (.err .gainStmSizeOutOfRange, 0) :=
+  sendMasked_generator_error 249 false _ _ rfl
 /-- F5's witnesses: NaN, and −∞ in the last focus of the last pattern of a 100 × 2 FociSTM (third frame) -/
 example : createFocus (0x7fc00000, 0, 0x43160000) = .error .fociStmPointOutOfRange :=
   nonfinite_point_refused _ _ _ (Or.inl (by decide))
